@@ -55,6 +55,23 @@ use std::time::Duration;
 /// Stays inside `i32` to fit `RawFd`.
 pub const SIM_FD_BASE: RawFd = 1 << 30;
 
+/// Verification hook (add-only, `--cfg turmoil_verif`): log of the fs rng
+/// decisions (random-sync coin, surviving torn blocks) drawn on this thread.
+#[cfg(turmoil_verif)]
+pub mod verif {
+    use std::cell::RefCell;
+    thread_local! {
+        static DECISIONS: RefCell<Vec<(&'static str, u64)>> = const { RefCell::new(Vec::new()) };
+    }
+    pub fn log(kind: &'static str, value: u64) {
+        DECISIONS.with(|d| d.borrow_mut().push((kind, value)));
+    }
+    /// Drain the decisions logged since the last call.
+    pub fn take() -> Vec<(&'static str, u64)> {
+        DECISIONS.with(|d| std::mem::take(&mut *d.borrow_mut()))
+    }
+}
+
 // ─── Enter pattern ──────────────────────────────────────────────────
 //
 // `Fs::enter(EnterCtx { now, rng })` pushes the current `Fs` plus its
@@ -385,7 +402,14 @@ impl FsContext<'_> {
     }
 
     /// Returns true with the given probability (0.0 to 1.0).
+    #[cfg_attr(turmoil_verif, allow(unreachable_code))]
     pub fn random_bool(&mut self, probability: f64) -> bool {
+        #[cfg(turmoil_verif)]
+        {
+            let b = self.fs.rng.random_bool(probability);
+            verif::log("coin", b as u64);
+            return b;
+        }
         self.fs.rng.random_bool(probability)
     }
 
@@ -1356,6 +1380,8 @@ impl Fs {
 
                     // Randomly decide how many blocks survive (0 to total_blocks inclusive)
                     let surviving_blocks = rng.random_range(0..=total_blocks as usize) as u64;
+                    #[cfg(turmoil_verif)]
+                    verif::log("torn", surviving_blocks);
                     if surviving_blocks == 0 {
                         return None;
                     }
